@@ -3,7 +3,24 @@
 import json, os, subprocess
 ROOT = os.path.dirname(os.path.dirname(os.path.abspath(__file__)))
 
+PAGER = "TLA+ mechanism model Pager.tla checked exhaustively by TLC (all interleavings of readers, savepoint handles and every critical section of the writer), "
+
 CLAIMS = {
+ "C02": dict(cat="model_checking", tech=PAGER + "forced-schedule replay through a pause point and TLC trace validation of snapshot re-reads and page accounting",
+   text="design: invariant Pinned holds in every reachable state of the small model (and is violated by the two seeded-bad variants of the model). code: the begin_read window is forced while commits free and reuse pages; live readers, owned iterators and guards are re-read after later commits/aborts/restores/compaction; projected page sets at every transaction boundary satisfy the same invariants. Found and fixed a genuine defect (known_findings.txt).",
+   note="trusted: TLC, harness, verif hooks (read-only projections); interleavings inside a single B-tree read are not controlled", ref="DESIGN.md 4/C02"),
+ "C03": dict(cat="model_checking", tech=PAGER + "forced begin_read/commit interleavings and sequential histories validated by TLC against the serial order of Kv.tla",
+   text="design: one write slot, readers see committed roots not older than their registration, commits publish atomically (Pager.tla). code: forced interleavings of begin_read with commits (window semantics of Kv.tla), histories of commits of all durabilities/aborts validated as one serial order.",
+   note="preemption modelled at lock boundaries of the anchored code; only the begin_read window is replayed with real threads so far", ref="DESIGN.md 4/C03"),
+ "C05": dict(cat="model_checking", tech=PAGER + "TLC trace validation of histories with abandoned transactions incl. equality of the allocated page set before/after",
+   text="design: AbortRestores (action property) and Kv.tla Abort. code: random histories with 20-25% abandoned transactions (abort, drop, after savepoint/catalog/durability operations); later calls must behave as if they never happened and the allocated page set must be EQUAL before and after.",
+   note="partial-failure injection inside rename/delete/restore is not covered here", ref="DESIGN.md 4/C05"),
+ "C06": dict(cat="model_checking", tech=PAGER + "TLC evaluation of the ownership invariants (PagerInv.tla) on state projections recorded after every transaction of random histories",
+   text="design: Owner1/Pinned/AllocRecordsOk on every state of the model. code: after every transaction end the projected allocator/tree/freed-table/tracker state must satisfy the same invariants, and after a settle sequence nothing may remain pending (storage back to what the contents need).",
+   note="reachable sets come from redb's own tree walk via hooks", ref="DESIGN.md 4/C06"),
+ "C07": dict(cat="model_checking", tech="Kv.tla savepoint rules + Pager.tla W_Restore checked by TLC; TLC trace validation of random savepoint histories; crash enumeration with persistent savepoints",
+   text="every savepoint call result and all later contents are judged against Kv.tla (restore exact, later savepoints invalid on commit, nothing on abort, persistent ones survive reopen/crash); page accounting after every transaction.",
+   note="restored contents of persistent savepoints after crash are checked through listing, not by restoring each in a scratch copy", ref="DESIGN.md 4/C07"),
  "C01": dict(cat="fault_enumeration", tech="TLA+ spec (Kv.tla CrashAtomic) as oracle for exhaustive crash-point enumeration: every crash image of every backend-operation boundary is reopened by redb and the observation is validated by TLC trace validation",
    text="fault enumeration judged by the TLA+ oracle: all crash points of recorded histories, all subsets of few unsynced writes (class representatives beyond), byte-prefix and sector tears, crashes during recovery; each observation must be exactly one commit point between the last acknowledged durable commit and the last requested one.",
    note="trusted: storage model of docs/design.md, TLC, harness crash-image builder; large unsynced sets are sampled", ref="DESIGN.md 4/C01"),
